@@ -478,7 +478,7 @@ pub fn gen_gs2(c: &mut Chooser, player_counts: &[usize], team_counts: &[usize]) 
             }
         })
         .collect();
-    Gs2State {
+    let mut s = Gs2State {
         hostname,
         mapname,
         password,
@@ -488,7 +488,12 @@ pub fn gen_gs2(c: &mut Chooser, player_counts: &[usize], team_counts: &[usize]) 
         extra,
         players,
         teams,
+    };
+    // the whole response is one datagram: it cannot exceed the MTU
+    while s.datagram().len() > 1400 && s.players.len() > 2 {
+        s.players.pop();
     }
+    s
 }
 
 pub const GS2_REQUEST: &[u8] = &[0xFE, 0xFD, 0x00, 0x00, 0x00, 0x00, 0x01, 0xFF, 0xFF, 0xFF];
